@@ -221,10 +221,10 @@ bool FIXReader::read(f8String& to)	// read a complete FIX message
 				throw IllegalMessage(msg_buf, FILE_LINE);
 			msg_buf[offs++] = bt;
 		}
-		while (bt != default_field_separator && offs < _max_msg_len);
+		while (bt != default_field_separator && offs < _bg_sz + 10); // BodyLength has few digits; a longer preamble is not a FIX message
 		to.assign(msg_buf, offs);
 
-		char tag[MAX_MSGTYPE_FIELD_LEN], val[FIX8_MAX_FLD_LENGTH];
+		char tag[FIX8_MAX_FLD_LENGTH], val[FIX8_MAX_FLD_LENGTH]; // extract_element copies without a limit: both must hold the whole preamble
 		unsigned result;
 		if ((result = MessageBase::extract_element(to.data(), static_cast<unsigned>(to.size()), tag, val)))
 		{
